@@ -113,6 +113,25 @@ Theorem c15_geometry_never_holds_equal_vertices : forall g v,
   geom_distinct C ceq c0 g -> geom_distinct C ceq c0 (fst (add_vertex C ceq g v)).
 Proof. exact (add_vertex_distinct C ceq rnd c0). Qed.
 
+(* premise-free behaviour of the readers' point insertion, into any geometry (fresh: g = []; a stand-alone Mesh that
+   has loaded a file before keeps that file's points in its private geometry): the geometry stays free of equal
+   vertices, every point of the file is represented by a vertex equal to it, and (operator== being an equivalence)
+   points equal to each other - within the file or to a point already there - become one vertex *)
+Theorem c15_add_vertices_any_points : forall (vs : list (V3 C)) (g : list (V3 C)), geom_distinct C ceq c0 g ->
+  let (g', im) := add_vertices C ceq g vs in
+  geom_distinct C ceq c0 g' /\ length im = length vs /\ (exists ext, g' = g ++ ext) /\
+  forall k, k < length vs -> nth k im 0 < length g' /\
+    (nth (nth k im 0) g' (v0 C c0) = nth k vs (v0 C c0) \/ veq C ceq (nth (nth k im 0) g' (v0 C c0)) (nth k vs (v0 C c0)) = true).
+Proof. exact (add_vertices_spec C ceq rnd c0). Qed.
+
+Theorem c15_load_merges_repeated_points : forall (vs g : list (V3 C)),
+  (forall a, veq C ceq a a = true) -> (forall a b, veq C ceq a b = true -> veq C ceq b a = true) ->
+  (forall a b c, veq C ceq a b = true -> veq C ceq b c = true -> veq C ceq a c = true) ->
+  geom_distinct C ceq c0 g ->
+  forall i j, i < length vs -> j < length vs -> veq C ceq (nth i vs (v0 C c0)) (nth j vs (v0 C c0)) = true ->
+  nth i (snd (add_vertices C ceq g vs)) 0 = nth j (snd (add_vertices C ceq g vs)) 0.
+Proof. exact (repeated_points_merge C ceq rnd c0). Qed.
+
 (* ---- merge (om_mesh_concat), after the repair of Mesh::add_mesh *)
 Theorem c15_merge_keeps_triangles : forall m1 m2 m3 : mesh, merge C ceq c0 m1 m2 = Ok m3 ->
   exists raw, merge_raw C ceq c0 m1 m2 = Ok raw /\
@@ -162,6 +181,8 @@ Print Assumptions c15_fast_orientation_check_equiv.
 Print Assumptions c15_position_table_equiv.
 Print Assumptions c15_add_vertices_distinct.
 Print Assumptions c15_geometry_never_holds_equal_vertices.
+Print Assumptions c15_add_vertices_any_points.
+Print Assumptions c15_load_merges_repeated_points.
 Print Assumptions c15_merge_keeps_triangles.
 Print Assumptions c15_merge_shares_coincident_vertices.
 Print Assumptions c15_vtk_writer_token_structure.
@@ -197,3 +218,13 @@ Theorem c15_inconsistent_mesh_is_reoriented :
       has_correct_orientation m' = true.
 Proof. exact square_reoriented. Qed.
 Print Assumptions c15_inconsistent_mesh_is_reoriented.
+
+(* a file listing a point twice loads into a fresh mesh object and into a used one as the same mesh (local triangles,
+   coordinates, 5 distinct vertices for 6 entries); only the numbering inside the private geometry differs *)
+Example c15_repeated_point_fresh_and_reused :
+  exists s a b, save_tri nat rnd_ex 0 fan = Ok s /\
+    load_tri nat Nat.eqb s = Ok a /\ reload_tri nat Nat.eqb [(0, 0, 0); (7, 7, 7)] s = Ok b /\
+    length (gv a) = 5 /\ mv a = [0; 0; 1; 2; 3; 4] /\
+    length (gv b) = 6 /\ mv b = [2; 2; 0; 3; 4; 5] /\
+    local_triangles a = local_triangles b /\ coords nat 0 a = coords nat 0 b.
+Proof. exact seam_fresh_and_reused. Qed.
